@@ -146,6 +146,16 @@ class Engine:
         g.toplevel(node, o)
         return Case(s, root, node, g, o, klass or ('table-root' if root in s.tables else 'struct-root'))
 
+    def make_wide_case(self, rng, count=130):
+        """many sibling instances of one wide table type that differ only in which high-id fields are present (fixed add order):
+        vtables of equal length / table size / leading entries - the vtable cache must still tell them apart"""
+        s = self.by_name['bwide']
+        node = bu.wide_value(s, rng, count)
+        g = bu.ScriptGen(s, rng, styles=False)
+        o = {'clustering': rng.random() < 0.5, 'block_align': 0, 'ident': None, 'with_size': False, 'style': 'se', 'early': False, 'align': 0}
+        g.toplevel(node, o)
+        return Case(s, s.root, node, g, o, 'wide-presence-patterns')
+
     # ------------------------------------------------------------------ running
     def run_builds(self, cases):
         ctx = self.ctx
